@@ -232,13 +232,15 @@ Section Assembly.
   (* --- every grader tree ------------------------------------------------------------------------- *)
   Hypothesis Hleaf : forall p, lout_ok S (o_leaf OR p).
   (* the one place where the code does NOT keep ok and grade in step (see C01_formula_leaf_refuted): a partial-credit
-     comparer verdict scaled by an answer worth grade_decimal = 0.  Either no alternative is worth 0 (Zc), or the
-     comparers are crisp. *)
-  Hypothesis Hside : (forall c, Zc c -> 0 < c) \/ (forall p, lout_crisp (o_leaf OR p)).
+     comparer verdict scaled by an answer worth grade_decimal = 0.  Either consolidate_results re-derives ok (the repaired
+     code), or no alternative is worth 0 (Zc), or the comparers are crisp. *)
+  Hypothesis Hside : o_recompute OR = true \/ (forall c, Zc c -> 0 < c) \/ (forall p, lout_crisp (o_leaf OR p)).
 
-  Lemma side_at : forall a p, alt_okp S Zc a -> 0 < alt_credit a \/ lout_crisp (o_leaf OR p).
+  Lemma side_at : forall a p, alt_okp S Zc a ->
+    o_recompute OR = true \/ 0 < alt_credit a \/ lout_crisp (o_leaf OR p).
   Proof.
-    intros a p Ha. destruct Hside as [Hz | Hc]; [left; apply Hz; eapply alt_credit_Z; exact Ha | right; apply Hc].
+    intros a p Ha. destruct Hside as [Hr | [Hz | Hc]];
+      [left; exact Hr | right; left; apply Hz; eapply alt_credit_Z; exact Ha | right; right; apply Hc].
   Qed.
 
   Lemma check_wf : forall fuel, chk_ok (check OR fuel).
